@@ -20,11 +20,14 @@ SPEC = dict(
     technique='weakest-precondition VCs from the real AST of chem_mass and _split_chem_formula against sidecar contracts (finite-sum spec '
               'function, loop variants, string VCs; ground table facts checked on the real table), discharged by z3 / cvc5; bounded run-time '
               'contract check (round trip, additivity, linearity) as labelled stand-in for the regex tokenizers',
-    contracts=['chemmass', 'glycanmass'],
+    contracts=['chemmass', 'glycanmass', 'formulaparse'],
     bounded=[dict(name='C15-bounded', script='bounded/C15.py')],
     replay_finder='bounded/C15.py',
     explanation='mass of a composition and the bracket tokenizer proved; round trip bounded',
-    proved_clauses=['the composition of a glycan (dictionary input, _glycan_comp / glycan_comp): for ANY weighting of the element symbols its weighted total == '
+    proved_clauses=['parse_chem_formula (no separator): the weighted total of the parsed composition == the sum over the tokenizer\'s components of the total of '
+                    'each component\'s own composition (additivity over the pieces; repeated symbols accumulate; bracketed isotopes are their own symbols) -- '
+                    'contracts/formulaparse.py; the two per-component readers (regular expressions) enter as callees',
+                    'the composition of a glycan (dictionary input, _glycan_comp / glycan_comp): for ANY weighting of the element symbols its weighted total == '
                     'the count-weighted sum of the totals of the monosaccharides\' compositions (name first, then synonym); unknown key raises',
                     'glycan_mass of a dictionary of monosaccharide counts == the count-weighted sum of the tabulated masses of the monosaccharides the keys '
                     'denote (by name first, then by synonym), in the requested mode, rounded on request; an unknown key raises the glycan formula error '
